@@ -122,6 +122,10 @@ pub fn run_check(id: &str, tier: Tier) -> i32 {
             if parts.iter().all(|p| p.failure.is_none()) {
                 parts.push(run_engine(&PairEngine { focus: Focus::Coop }, &ctx, scale(tier, 4_000, 200_000)));
             }
+            if id == "C17" && parts.iter().all(|p| p.failure.is_none()) {
+                // peer-side failures (transport errors of every kind, GOAWAY, shutdown) surfacing on the handles
+                parts.push(run_engine(&PairEngine { focus: Focus::Faults }, &ctx, scale(tier, 6_000, 200_000)));
+            }
             assumptions.push("the simulator's transport and executor honour the AsyncRead/AsyncWrite/Future contracts; the reference frame parser is correct".into());
         }
         "C07" => {
